@@ -50,6 +50,86 @@ def maxAbsDiff (a b : List Float) : Float :=
     let d := (p.1 - p.2).abs
     if d.isNaN then (if p.1.isNaN && p.2.isNaN then acc else 1.0 / 0.0) else if acc < d then d else acc) 0.0
 
+/-! ### replay of a recorded session (`Estimate.run` on `Float`)
+
+The likelihood of the database is a finite table (point → value and derivatives, recomputed by
+independent objects); the optimiser is the replay of the recorded calls (objective tag, starting
+point → returned point).  The objective of the k-th bootstrap sample is only a tag: the model
+hands it to the optimiser and never evaluates it. -/
+
+def bitsEq (a b : List Float) : Bool :=
+  a.length == b.length && (a.zip b).all fun (p : Float × Float) => p.1.toBits == p.2.toBits
+
+structure EvRow where
+  x : List Float
+  e : Eval Float
+
+structure OptRow where
+  tag : Nat
+  x0 : List Float
+  xs : List Float
+  converged : Bool
+
+def nan : Float := 0.0 / 0.0
+
+def tableEval (t : List EvRow) (x : List Float) : Eval Float :=
+  match t.find? fun r => bitsEq r.x x with
+  | some r => r.e
+  | none => { f := nan, g := [], h := [], bhhh := [] }
+
+/-- objective with a tag readable by the replayed optimiser: value −tag at the empty point -/
+def taggedObjective (tag : Nat) (t : List EvRow) : Objective Float :=
+  { like := fun x => if x.isEmpty then -(tag.toFloat) else (tableEval t x).f,
+    ev := fun x => tableEval t x }
+
+def replayOpt (t : List OptRow) : Optimizer Float := fun f _ _ _ x0 =>
+  let tag := (f []).toUInt64.toNat
+  match t.find? fun r => r.tag == tag && bitsEq r.x0 x0 with
+  | some r => { x := r.xs, converged := r.converged }
+  | none => { x := [], converged := false }
+
+def optFloatJson : Option Float → Json
+  | some x => fbits x
+  | none => Json.null
+
+def reportJson (r : Report Float) : Json :=
+  Json.mkObj [
+    ("x", jFloats r.res.x), ("logLike", fbits r.res.logLike), ("initLogLike", optFloatJson r.res.initLogLike),
+    ("g", match r.res.g with | some g => jFloats g | none => Json.null),
+    ("h", match r.res.h with | some h => jMat h | none => Json.null),
+    ("bhhh", match r.res.bhhh with | some b => jMat b | none => Json.null),
+    ("converged", jBool r.res.converged), ("full", jBool r.full),
+    ("bootstrap", match r.bootstrap with | some rows => jMat rows | none => Json.null)]
+
+def parseParams (j : Json) (k : String) : Except String (List (Param Float)) := do
+  (← getArr j k).toList.mapM fun p => do
+    let n ← getStr p "name"
+    let v ← getFloat p "value"
+    let fx ← getBool p "fixed"
+    pure ({ name := n, value := v, fixed := fx } : Param Float)
+
+def paramsOut (ps : List (Param Float)) : Json :=
+  jArr (ps.map fun p => Json.mkObj [("name", jStr p.name), ("value", fbits p.value), ("fixed", jBool p.fixed)])
+
+def parseOp (j : Json) : Except String (Op Float) := do
+  match (← getStr j "op") with
+  | "eval" => pure (.eval (← getVec j "x"))
+  | "init" => pure .initLikelihood
+  | "quick" => pure .quickEstimate
+  | "estimate" =>
+    match (← j.getObjVal? "boot") with
+    | Json.null => pure (.estimate none)
+    | v => do
+      let tags ← natList v
+      pure (.estimate (some (tags.map fun t => taggedObjective t [])))
+  | "change" =>
+    let vals ← (← getArr j "vals").toList.mapM fun p => do
+      match (← asArr p).toList with
+      | [n, v] => pure ((← asStr n), (← asFloat v))
+      | _ => throw "bad-op"
+    pure (.changeInit vals)
+  | _ => throw "bad-op"
+
 def handle (j : Json) : Except String Json := do
   let op ← getStr j "op"
   match op with
@@ -130,6 +210,32 @@ def handle (j : Json) : Except String Json := do
     let a ← getVec j "a"
     let b ← getVec j "b"
     pure (Json.mkObj [("maxabs", fbits (maxAbsDiff a b))])
+  | "session" =>
+    let names ← strList (← j.getObjVal? "names")
+    let ps ← parseParams j "params"
+    let idv ← getVec j "idValues"
+    let bounds ← parseBounds (← j.getObjVal? "bounds")
+    let evs ← (← getArr j "evals").toList.mapM fun r => do
+      pure ({ x := (← getVec r "x"),
+              e := { f := (← getFloat r "f"), g := (← getVec r "g"), h := (← getMat r "h"), bhhh := (← getMat r "bhhh") } } : EvRow)
+    let opts ← (← getArr j "opt").toList.mapM fun r => do
+      pure ({ tag := (← getNat r "tag"), x0 := (← getVec r "x0"), xs := (← getVec r "xstar"),
+              converged := (← getBool r "converged") } : OptRow)
+    let ops ← (← getArr j "ops").toList.mapM parseOp
+    let initLL ← getOptFloat j "initLogLike"
+    let env : Env Float := { names := names, obj := taggedObjective 0 evs, fd := fun _ => [], opt := replayOpt opts, bounds := bounds }
+    let s0 : Session Float := { params := ps, idValues := idv, initLogLike := initLL, bootstrap := none }
+    let out := run env s0 ops
+    -- never default silently: a recorded call or evaluation that the replay did not find
+    if out.2.any fun r => r.res.x.isEmpty || !(evs.any fun row => bitsEq row.x r.res.x) then throw "replay-miss"
+    if out.2.any fun r => match r.bootstrap with
+        | some rows => rows.any fun row => row.isEmpty
+        | none => false then throw "replay-miss"
+    pure (Json.mkObj [
+      ("reports", jArr (out.2.map reportJson)),
+      ("state", Json.mkObj [("params", paramsOut out.1.params), ("idValues", jFloats out.1.idValues),
+        ("initLogLike", optFloatJson out.1.initLogLike),
+        ("bootstrap", match out.1.bootstrap with | some rows => jMat rows | none => Json.null)])])
   | _ => throw "bad-op"
 
 def main : IO Unit := Drv.run handle
